@@ -2,7 +2,7 @@
    regenerated from /repo on every run), plus the string lemma behind "ids of different kinds differ". *)
 From Coq Require Import String Ascii ZArith List Bool Lia.
 Import ListNotations.
-From RV Require Import Model.HashModel Gen.C06Sites Gen.C06BinSites Model.C06Chk.
+From RV Require Import Model.HashModel Model.C06State Gen.C06Sites Gen.C06BinSites Model.C06Chk Proofs.C06State.
 Local Open Scope string_scope.
 
 Lemma hash_sites_lookup_only : forallb hsite_ok c06_hash_sites = true.
@@ -43,6 +43,48 @@ Lemma bin_ledger : bin_ledger_ok = true.
 Proof. vm_compute. reflexivity. Qed.
 Lemma scanner_selftest : c06_scanner_selftest = true.
 Proof. vm_compute. reflexivity. Qed.
+
+(* round 4: every ledger cell is in a discharged class; the order ledger (sorts in usvg/resvg, simplecss, fontdb) *)
+Lemma ledger_discharged : forallb discharged ledger_classes = true.
+Proof. vm_compute. reflexivity. Qed.
+Lemma ledger_classes_inhabited :
+  existsb (fun c => match c with ImmInit => true | _ => false end) ledger_classes = true
+  /\ existsb (fun c => match c with CallLocal => true | _ => false end) ledger_classes = true
+  /\ existsb (fun c => match c with ExtInput => true | _ => false end) ledger_classes = true
+  /\ existsb (fun c => match c with ImmInit => true | _ => false end) (map bin_cell_class c06_bin_shared_sites) = true
+  /\ existsb (fun c => match c with NotOutput => true | _ => false end) (map bin_cell_class c06_bin_shared_sites) = true.
+Proof. vm_compute. repeat split; reflexivity. Qed.
+Lemma bin_ledger_discharged : forallb discharged (map bin_cell_class c06_bin_shared_sites) = true.
+Proof. vm_compute. reflexivity. Qed.
+Lemma order_ledger : order_ledger_ok = true.
+Proof. vm_compute. reflexivity. Qed.
+
+(* the history / schedule theorems instantiated with the ledger of the CURRENT source: whatever the renderer computes
+   (F, G, Hc, prog arbitrary), as long as it touches the ledger's cells only in the way their classes permit *)
+Lemma ledger_history_independent :
+  forall F G Hc init prog, (forall x, forallb (instr_ok ledger_classes) (prog x) = true) ->
+  forall h1 h2 x,
+    fst (call F G Hc ledger_classes init prog x (hrun F G Hc ledger_classes init prog h1 (store0 init)))
+    = fst (call F G Hc ledger_classes init prog x (hrun F G Hc ledger_classes init prog h2 (store0 init))).
+Proof. intros F G Hc init prog P. exact (history_independent F G Hc ledger_classes init prog ledger_discharged P). Qed.
+
+Lemma ledger_any_schedule :
+  forall F G Hc init prog, (forall x, forallb (instr_ok ledger_classes) (prog x) = true) ->
+  forall (xs h sched : list nat) i th,
+    nth_error (fst (interleave F G Hc ledger_classes sched (map (spawn init prog) xs)
+                      (hrun F G Hc ledger_classes init prog h (store0 init)))) i = Some th ->
+    t_prog th = [] ->
+    exists x, nth_error xs i = Some x /\ fst (t_loc th) = fst (call F G Hc ledger_classes init prog x (store0 init)).
+Proof. intros F G Hc init prog P. exact (any_schedule F G Hc ledger_classes init prog ledger_discharged P). Qed.
+
+(* a program over the REAL ledger that reads every readable cell and writes every writable one is admitted: the
+   hypothesis of the two lemmas above is met by a program that touches every cell *)
+Definition touch_all : list instr :=
+  concat (map (fun c => List.app (if instr_ok ledger_classes (IRead c) then [IRead c] else [])
+                                 (if instr_ok ledger_classes (IWrite c) then [IWrite c; IPure c] else []))
+              (seq 0 (length ledger_classes))).
+Lemma touch_all_ok : forallb (instr_ok ledger_classes) touch_all = true /\ (10 <= length touch_all)%nat.
+Proof. vm_compute. split; [reflexivity | lia]. Qed.
 
 (* the scan saw the code: none of the lists the theorems quantify over is empty *)
 Lemma ledger_nonempty :
